@@ -11,3 +11,17 @@
         /// std gap (ASSUMED): `Option<Option<T>>::flatten`
         pub assume_specification<T>[ Option::<Option<T>>::flatten ](o: Option<Option<T>>) -> (r: Option<T>)
             ensures r == (match o { Some(inner) => inner, None => None::<T> });
+        /// R16 helper: `NAME.split(".").collect::<Vec<_>>()`; the components are left uninterpreted
+        pub uninterp spec fn split_dots<'a>(name: &'a String) -> Seq<&'a str>;
+        #[verifier::external_body]
+        pub fn verif_split_dots<'a>(name: &'a String) -> (r: Vec<&'a str>)
+            ensures r@ == split_dots(name)
+        { unimplemented!() }
+        /// the declaration a command-line define names (a global dotted path)
+        pub open spec fn define_target(decls: &asm::ItemDecls, name: &String) -> Option<util::ItemRef<asm::Symbol>> {
+            decls.symbols.spec_traverse(decls.symbols.spec_parent(None, Seq::empty()), crate::symspec::texts(split_dots(name)))
+        }
+        /// one of the first n command-line defines names no declaration
+        pub open spec fn some_define_unused(decls: &asm::ItemDecls, defines: Seq<asm::DriverSymbolDef>, n: int) -> bool decreases n {
+            n > 0 && (some_define_unused(decls, defines, n - 1) || define_target(decls, &defines[n - 1].name) is None)
+        }
